@@ -112,8 +112,10 @@ def forward_fields(ctx):
             if e.fn is not rec and e.name == e.fn.node.name]
     ok = bool(ups) and all(has(e.all_args(), 'forward_opts')
                            for e in ups) and bool(recs) and all(
-        has(e.all_args(), 'forward_opts', 'libs') for e in recs) and \
-        has_call(F.returns(rec), 'cls')
+        has(e.all_args(), 'forward_opts', 'libs') for e in recs) and (
+        has_call(F.returns(rec), 'cls') or any(
+            has_call(e.recv(), 'cls') and has_call(F.returns(rec), e.name)
+            for e in F.effects(rec, lambda e: True, depth=0)))
     ctx.ob(R, 'ForwardOptions.recurse|transitive', ok, rec.node,
            'requirements of static libraries are not collected '
            'transitively')
